@@ -29,6 +29,7 @@ package redisemu
 //@ pure
 
 //@ func resp3To2
+//@ nomerge
 //@ prop C15
 //@ requires free convertible: respConvertible(val3)
 //@ modifies alloc map cell respValue orderedRespMap
